@@ -4,7 +4,9 @@
    ord_r = sources in the order rank r processes them ("-" = none), num = numberer (0 default, 1 old numbers, 2 1000+g).
    Output (one line):
      <S of the model as the tree is> ## <S of the repaired model> ## oi=<0|1> cnt=<0|1> ## sv=.. mono=.. compl=.. pre=.. restore=.. synced=..
-   oi: repaired model gives the same result for the given order and for the fixed (ascending) order;
+   tree/tup/mod/seq: self-checks of further model functions on this case's data (model of the current source = repaired model;
+   iterator-tuple insertion = list insertion and reproduces every new entry; modifier removal / repair reproduce the D world;
+   sequence numbers in sync);  oi: repaired model gives the same result for the given order and for the fixed (ascending) order;
    cnt: calculateMessageSizes' publish count equals the number of packed publications for every (rank, neighbour);
    last group: the extracted spec (C13_Spec.v) applied to the IMPL's S world (na when absent). *)
 open C13_model
@@ -15,9 +17,9 @@ let rec int_of_pos = function XH -> 1 | XO p -> 2 * int_of_pos p | XI p -> 2 * i
 let int_of_n = function N0 -> 0 | Npos p -> int_of_pos p
 let rec nat_of_int i = if i = 0 then O else S (nat_of_int (i - 1))
 let rec int_of_nat = function O -> 0 | S n -> 1 + int_of_nat n
-let lmax = max_int
-let l_of_string s = if s = "max" then n_of_int lmax else n_of_int (int_of_string s)
-let string_of_l l = let i = int_of_n l in if i = lmax then "max" else string_of_int i
+(* "max" = what IndicesSyncer::DefaultNumberer returns; the value comes from the extracted model (Params_gen) *)
+let l_of_string s = if s = "max" then c13_param_default_local else n_of_int (int_of_string s)
+let string_of_l l = if l = c13_param_default_local then "max" else string_of_int (int_of_n l)
 
 let split_on s sep =   (* split on a multi-character separator *)
   let n = String.length sep and res = ref [] and start = ref 0 and i = ref 0 in
@@ -95,7 +97,7 @@ let () =
       let barr = Array.of_list bw in
       let numb (r : n) (g : n) : n =
         match num with
-        | 0 -> n_of_int lmax
+        | 0 -> c13_default_numberer g
         | 1 -> (let ri = int_of_n r in
                 let old = if ri < Array.length barr then List.filter (fun p -> p.c13_g = g) barr.(ri).o_iset else [] in
                 match old with p :: _ -> p.c13_l | [] -> n_of_int (1000 + int_of_n g))
@@ -110,6 +112,31 @@ let () =
       let cnt = List.for_all (fun x -> x) (List.concat (List.mapi (fun p pr ->
                   List.map (fun (q, _) -> int_of_nat (c13_calc_publish q pr.c13_iset pr.c13_ri)
                                            = List.length (c13_pack q pr.c13_iset pr.c13_ri)) pr.c13_ri) w)) in
+      (* self-checks of the further model functions the theorems speak about, on this case's data *)
+      let tree = (show (run c13_tree sigma) = show r_fix) in
+      let darr = Array.of_list dw in
+      let tup = List.for_all (fun x -> x) (List.mapi (fun p res -> match res with
+          | C13Ok (_, ri, _) when p < Array.length darr ->
+              List.for_all (fun (q, l) ->
+                let l0 = (match List.assoc_opt q darr.(p).o_ri with Some x -> x | None -> []) in
+                let news = List.filter (fun e -> not (List.mem e l0)) l in
+                let t0 = ((List.map snd l0, List.map fst l0), List.map (fun _ -> true) l0) in
+                let tf = List.fold_left (fun ((rl, gl), bl) (key, ra) -> c13_tuple_insert c13_fixed key ra rl gl bl) t0 (List.rev news) in
+                let lf = List.fold_left (fun acc (key, ra) -> c13_list_insert c13_fixed key ra acc) l0 (List.rev news) in
+                c13_tuple_view tf = lf && lf = l &&
+                List.length (List.filter (fun b -> not b) (snd tf)) = List.length news) ri
+          | _ -> true) r_fix) in
+      let md = List.length bw = List.length dw && List.for_all2 (fun b d ->
+          let gs o = List.map (fun ip -> ip.c13_g) o.o_iset in
+          let dels = List.filter (fun g -> not (List.mem g (gs d))) (gs b) in
+          List.for_all (fun (q, lb) -> match List.assoc_opt q d.o_ri with
+              | None -> true
+              | Some ld -> let keep = List.filter (fun e -> List.mem e lb) ld in c13_mod_remove_all dels lb = keep) b.o_ri
+          && List.for_all2 (fun (_, ld) (_, ks) ->
+               match c13_mod_repair d.o_iset (List.map (fun e -> fst (fst e)) ld) O with
+               | Some ps -> List.map (fun k -> Some k) ps = ks
+               | None -> false) d.o_ri d.o_ptrs) bw dw in
+      let sq = c13_is_synced (c13_sync_seq { sq_set = n_of_int 3; sq_src = n_of_int 1; sq_dst = n_of_int 2 }) in
       let verdicts =
         if ss = "-" then "sv=na mono=na compl=na pre=na restore=na synced=na" else begin
           let sw = parse_world ss in
@@ -121,7 +148,7 @@ let () =
           let syn = List.for_all (fun o -> o.o_synced) sw in
           Printf.sprintf "sv=%s mono=%s compl=%s pre=%s restore=%s synced=%s" (b01 sv) (b01 mono) (b01 compl) (b01 pre) (b01 rest) (b01 syn)
         end in
-      print_string (show r_asis ^ " ## " ^ show r_fix ^ " ## oi=" ^ b01 oi ^ " cnt=" ^ b01 cnt ^ " ## " ^ verdicts ^ "\n")
+      print_string (show r_asis ^ " ## " ^ show r_fix ^ " ## oi=" ^ b01 oi ^ " cnt=" ^ b01 cnt ^ " tree=" ^ b01 tree ^ " tup=" ^ b01 tup ^ " mod=" ^ b01 md ^ " seq=" ^ b01 sq ^ " ## " ^ verdicts ^ "\n")
     with Failure m -> print_string ("BADLINE " ^ m ^ "\n") | Not_found -> print_string "BADLINE notfound\n"
        | Invalid_argument m -> print_string ("BADLINE " ^ m ^ "\n"));
     flush stdout
